@@ -213,6 +213,12 @@ def main(fd, verbose=0):
                     break
                 try:
                     splitted = line.strip().decode("ascii").split(":")
+                    if len(splitted) < 3:
+                        # A request is made of a command, a name and a
+                        # resource type: do not guess the missing fields.
+                        raise ValueError(
+                            f"malformed resource_tracker request: {line!r}"
+                        )
                     # name can potentially contain separator symbols (for
                     # instance folders on Windows)
                     cmd, name, rtype = (
